@@ -149,11 +149,9 @@ def check(ctx):
     build = method(repo, eb, "build")
     cfg = CFG(build.node)
     rb = evaluate(repo, build)
+    from .common import collects_kernel_keys
     dup_calls = [t for t, _, _ in rb.calls if is_call(t, "liesel.goose.builder._find_duplicate")
-                 and t[2] and any(x[0] == "mut" and x[2] == "extend" and x[3]
-                                  and x[3][0][0] == "a" and x[3][0][2] == "position_keys"
-                                  and x[3][0][1] == ("iter", ("a", SELF, "_kernels"))
-                                  for x in subterms(t[2][0]))]
+                 and t[2] and collects_kernel_keys(t[2][0], ("a", SELF, "_kernels"))]
     ok = False
     detail = f"{len(dup_calls)} duplicate searches over the kernels' position keys"
     if len(dup_calls) == 1:
